@@ -200,7 +200,7 @@ def check_case(ctx, case):
 
 
 def run(ctx):
-    for k in range(ctx.n(45, 450)):
+    for k in range(ctx.n(70, 600)):
         check_case(ctx, gen(ctx))
     ctx.lean.flush()
 
